@@ -137,6 +137,7 @@ func (client *Client) Populate(config []Proxy) ([]*Proxy, error) {
 
 	for _, proxy := range proxies.Proxies {
 		proxy.client = client
+		proxy.created = true
 	}
 
 	return proxies.Proxies, err
